@@ -21,7 +21,7 @@ namespace sim
     bool bernoulli(double p) { return real() < p; }
   };
 
-  static constexpr int MAX_TASKS = 64;
+  static constexpr int MAX_TASKS = 128;
   typedef std::vector<uint32_t> VClock;
 
   struct Options
